@@ -78,10 +78,10 @@ claim("C12", V,
       "Verus contracts on the extracted EWMAStream (f32 instance and Quantity impl) and MovingAverageStream::update with loop invariants over the unbounded queue; idealised convexity lemmas",
       "EWMA: value == prev*(1-L) + new*L with L = 1 - powf(1-s, dt), first sample unchanged (idealised), time = sample time, the expect never fires; moving average: for any positive window and any event no index is out of range, the trim loop terminates and never pops the newest element, integer weights are non-negative and sum to the window for non-decreasing timestamps; idealised: output is the weighted mean.",
       V_BASE + "A4 (powf), A7.")
-claim("C13", K,
+claim("C13", "kani+verus",
       "Kani proof harnesses on the command halves of Invert/GearTrain/Axle<N>::update and the terminal command read, with Command operator impls replaced by uninterpreted stand-ins",
       "After update every device terminal reads the newest command among those present (documented tie rule), kind and timestamp preserved, value mapped by the expected tree (negated / times ratio / divided by ratio / unchanged); no command => none written; a differential leaves all command slots bit-unchanged; a two-device chain harness.",
-      K_BASE + "Chains of k devices follow by induction from the per-device and terminal-read contracts (k = 2 mechanised).")
+      K_BASE + "Value contracts of Command mul/div/neg: Verus unit c14_cmd_ops (exact) and Kani c14_command_*; chains of k devices: induction lemma c13_chain (any k) over the per-device maps, plus a 2-device Kani harness.")
 claim("C14", K,
       "Kani proof harnesses (cvc5 for State/Quantity float formulas, SAT for Command) on State::update, the setters, State/Command arithmetic, Command <-> State/Quantity/f32 conversions",
       "State::update is exactly v' = v + dt*a, p' = p + dt*(v+v')/2 (true IEEE semantics) for every dt; setters accept the right unit and reject every other unit leaving the state bit-unchanged; Command::from(State) is the lowest non-zero derivative; accessors round-trip; arithmetic component-wise; different kinds always panic.",
